@@ -109,7 +109,10 @@ class QTensorLinear(torch.autograd.Function):
                 bits=4,
                 group_size=other._group_size,
             )
-        elif isinstance(other, QBytesTensor):
+        elif isinstance(other, QBytesTensor) and other.axis != -1:
+            if isinstance(input, QBytesTensor) and input.axis is not None:
+                # The scale of an input quantized per-axis cannot be factored out of the matmul
+                input = input.dequantize()
             if isinstance(input, QBytesTensor):
                 output = torch.ops.quanto.qbytes_mm(input._data, other._data, input._scale * other._scale)
             else:
